@@ -81,7 +81,7 @@ static void install_handlers() {
   memset(&sa, 0, sizeof sa);
   sa.sa_handler = on_signal;
   sa.sa_flags = SA_ONSTACK | SA_RESETHAND;
-  for (int s : {SIGSEGV, SIGBUS, SIGFPE, SIGILL, SIGABRT}) sigaction(s, &sa, nullptr);
+  for (int s : {SIGSEGV, SIGBUS, SIGFPE, SIGILL, SIGABRT, SIGALRM}) sigaction(s, &sa, nullptr);
   if (__sanitizer_set_death_callback) __sanitizer_set_death_callback(on_sanitizer_death);
 }
 
@@ -102,10 +102,12 @@ static uint64_t case_hash(const Sub& sub, const Vals& v) {
 
 // runs one case; returns true when it passed
 static bool run_case(const Sub& sub, const Vals& v, Ctx& ctx) {
-  std::string cj = case_json(sub, v, "crash (signal or sanitizer report) while executing this case", "");
+  std::string cj = case_json(sub, v, "crash (fatal signal or sanitizer report) or no completion within 600 s while executing this case", "");
   strncpy(g_cur_json, cj.c_str(), sizeof g_cur_json - 1);
   g_in_case = 1;
+  alarm(600);  // watchdog: a single case takes milliseconds to a few seconds; a library call that never returns is reported like a crash
   sub.run(v, ctx);
+  alarm(0);
   g_in_case = 0;
   if (ctx.discard) {
     g_st.discards++;
